@@ -105,6 +105,12 @@ def c16_items(tier, rng):
         n = rng.randint(0, 140)
         valid.append(("dna", bytes(rng.choice(DNA) for _ in range(n))))
         valid.append(("iupac", bytes(rng.choice(IUPAC) for _ in range(n))))
+    # the SAME text through both macros inside one crate (pure A/C/G/T is valid for both), in both
+    # orders of expansion, short and long
+    for j, n in enumerate([4, 33, 127, 128, 129, 200, 300] if tier == "quick" else [1, 4, 33, 64, 127, 128, 129, 200, 256, 300, 1030]):
+        t = lit_text(DNA, n, 3 * n + 1)
+        pair = [("dna", t), ("iupac", t)]
+        valid.extend(pair if j % 2 == 0 else pair[::-1])
     kmers = []
     for k in ([1, 2, 3, 15, 16, 17, 31, 32] if tier == "quick" else list(range(1, 33))):
         kmers.append((lit_text(DNA, k, k), "usize"))
@@ -129,6 +135,13 @@ def c16_items(tier, rng):
                         continue
                     t = base[:pos] + ch.encode("utf-8") + base[pos + 1:]
                     invalid.append((macro, t, base))
+    # a text that is valid for iupac! but not for dna! -- it also appears among the valid iupac! literals
+    # of the same program, so a verdict that depends on what another macro saw earlier would show
+    for n in [130, 40]:
+        t = lit_text(DNA, n, 5)
+        t = t[: n // 2] + b"N" + t[n // 2 + 1:]
+        valid.append(("iupac", t))
+        invalid.append(("dna", t, lit_text(DNA, n, 5)))
     return valid, kmers, invalid
 
 
@@ -165,7 +178,16 @@ def c16_sources(valid, kmers):
 
 
 def one_lit_bin(macro, t):
-    return "#![allow(warnings)]\nuse bio_seq::prelude::*;\nfn main() { let s = %s!(%s); println!(\"{}\", s.len()); }\n" % (macro, rust_str(t))
+    # the other macro sees the same text first whenever that text is valid for it
+    other = "iupac" if macro == "dna" else "dna"
+    pre = ""
+    try:
+        ok_other = all(c in (IUPAC + b"X" if other == "iupac" else DNA) for c in t)
+    except TypeError:
+        ok_other = False
+    if ok_other and len(t) > 0:
+        pre = "let o = %s!(%s); println!(\"{}\", o.len()); " % (other, rust_str(t))
+    return "#![allow(warnings)]\nuse bio_seq::prelude::*;\nfn main() { %slet s = %s!(%s); println!(\"{}\", s.len()); }\n" % (pre, macro, rust_str(t))
 
 
 # ------------------------------------------------------------------------------ C17
@@ -391,6 +413,11 @@ def c17_malformed(tier, rng):
         d = variant()
         d["variants"][2]["disc_src"] = src
         out.append((kind, c17_one(d), decl_json(base), twin, decl_json(base)))
+    # discriminants outside 0..=255 cannot be honoured
+    for src in (["256", "0x100"] if tier == "quick" else ["256", "0x100", "300", "0b1_0000_0000", "65535", "70000", "4294967296"]):
+        d = variant()
+        d["variants"][3]["disc_src"] = src
+        out.append(("toolarge", c17_one(d), decl_json(base), twin, decl_json(base)))
     # not an enum
     out.append(("struct", "#![allow(warnings)]\nuse bio_seq::prelude::*;\n#[derive(Codec)]\nstruct S { a: u8 }\nfn main() {}\n", decl_json(base), twin, decl_json(base)))
     out.append(("union", "#![allow(warnings)]\nuse bio_seq::prelude::*;\n#[derive(Codec)]\nunion U { a: u8, b: u8 }\nfn main() {}\n", decl_json(base), twin, decl_json(base)))
